@@ -543,6 +543,6 @@ func init() {
 		Level:       "other",
 		Explanation: "Structural necessary conditions of 'tasks only reach matching, undrained workers': longest-prefix lookup only for Execute, exact lookups elsewhere and exact (platform, size class) key in Synchronize; trie re-indexing before removal; every assignment of queued work is guarded by a never-stale !isDrained; drain additions/removals and terminations wake the affected workers on the same paths; the no-queue rejection codes and ordering; the patched instance name suffix. Trie semantics and registration histories are not decided.",
 		Assumptions: []string{"platform.Trie (tested by the existing suite) implements exact/longest-prefix lookup correctly"},
-		Rules:       []RuleFunc{c05Lookup, c05Drain, c05Wake, c05Reject, schedMatchArgs, schedParallelSlices, c05TrieRemove, c05RouteLongestPrefix},
+		Rules:       []RuleFunc{c05Lookup, c05Drain, c05Wake, c05Reject, schedMatchArgs, schedParallelSlices, c05TrieRemove, c05RouteLongestPrefix, c05TrieSiblings},
 	})
 }
